@@ -422,6 +422,44 @@ func (in *Instance) Receivers() ([]string, error) {
 	return out, nil
 }
 
+// ClientSettled waits until the application has RETURNED from at least as many notify attempts as the sink has
+// answered (counter alertmanager_notification_requests_total, incremented when an integration's Notify returns; the
+// notification-log write follows in the same goroutine without blocking), then margin more. ignore = requests of the
+// sink that are knowingly still in flight. false = not observed within 8 s (the machine is too loaded to order the next
+// step after the deliveries).
+func (in *Instance) ClientSettled(ignoreEndpoint string, margin time.Duration) bool {
+	dl := time.Now().Add(8 * time.Second)
+	for {
+		answered, pending := 0, 0
+		for _, r := range in.Sink.Reqs() {
+			switch {
+			case r.Name == ignoreEndpoint:
+			case r.Done.IsZero():
+				pending++
+			default:
+				answered++
+			}
+		}
+		ignored := 0.0
+		if ignoreEndpoint != "" {
+			for _, r := range in.Sink.Of(ignoreEndpoint) {
+				if !r.Done.IsZero() {
+					ignored++
+				}
+			}
+		}
+		returned, _ := in.Metric("alertmanager_notification_requests_total")
+		if pending == 0 && returned-ignored >= float64(answered) {
+			time.Sleep(margin)
+			return true
+		}
+		if time.Now().After(dl) {
+			return false
+		}
+		time.Sleep(20 * time.Millisecond)
+	}
+}
+
 // Metric reads one sample from the registry the harness handed to the application (sum over all label sets that
 // contain the given label pairs); ok=false when the family does not exist.
 func (in *Instance) Metric(name string, labels ...string) (float64, bool) {
